@@ -458,6 +458,14 @@ def _():
     return S(pyrepseq.pcDelta, SEQS(), bins=[0, 1, 2, 3, 10], normalize=False, maxseqs=5)
 
 
+@spec("pcDelta_frame_maxseqs_not_binding", "distance")
+def _():
+    # maxseqs >= N: nothing is sampled, the caller's labelled table / Series is what the code works on
+    ser = pd.Series(SEQS(), index=[f"s{i}" for i in range(len(SEQS()))][::-1], name="cdr3")
+    return S(lambda a, b: [pyrepseq.pcDelta(a, bins=[0, 1, 2, 4, 30], normalize=False, maxseqs=len(a)),
+                           pyrepseq.pcDelta(b, a["CDR3B"], bins=[0, 1, 2, 4, 30], normalize=False, maxseqs=50)], TCR(), ser)
+
+
 @spec("pcDelta_bins0", "distance")
 def _():
     return S(pyrepseq.pcDelta, SEQS(), bins=0)
@@ -665,6 +673,25 @@ def _():
 @spec("persistent_symdeldb_hamming", "nn")
 def _():
     return S(lambda q: PERSIST["symdeldb"].lookup(q, custom_distance="hamming"), QUERIES() + ["CASSLGQ"], post=triplets)
+
+
+def _len_gap(a, b):
+    return abs(len(a) - len(b)) + (0 if a[:1] == b[:1] else 0.5)
+
+
+@spec("persistent_symdeldb_custom_wide", "nn")
+def _():
+    return S(lambda q: PERSIST["symdeldb"].lookup(q, custom_distance=_len_gap), QUERIES() + ["CASSLGQ"], post=triplets)
+
+
+@spec("persistent_symdeldb_custom_zero", "nn")
+def _():
+    return S(lambda q: PERSIST["symdeldb"].lookup(q, custom_distance=_len_gap, max_custom_distance=0), QUERIES() + ["CSSLGQ"], post=triplets)
+
+
+@spec("persistent_lookupdb_custom", "nn")
+def _():
+    return S(lambda q: PERSIST["lookupdb"].lookup(q, max_edits=2, custom_distance=_len_gap, max_custom_distance=0.5), ["WWYY", "CASSLG"], post=triplets)
 
 
 @spec("persistent_lookupdb_k2", "nn")
